@@ -90,6 +90,23 @@ pub fn oracle_with(frame: &[u8], suffix: &[u8], iter_view: bool) -> Result<(), (
             }
         }
     }
+    // the frame behind a few dead bytes (and followed by the suffix): found by the scanner with the same attributes
+    {
+        let k = 1 + (suffix.len() + l) % 4;
+        let mut buf: Vec<u8> = (0..k).map(|i| [0x00u8, 0x55, 0xFF, 0x3D][(i + l) % 4]).collect();
+        buf.extend_from_slice(&ext);
+        let (c, f) = next_msg_frame(&buf);
+        match f {
+            Some(m) if c == k + l + 6 && m.frame_data() == frame && m.message_number() == expect_number && format!("{:?}", m.get_message()) == a.message => {}
+            Some(m) => {
+                return Err((
+                    "c13:scanner-frame-depends-on-position".into(),
+                    format!("the frame behind {} dead byte(s) and before {} suffix byte(s): scanner consumed {} and delivered a {}-byte frame with number {:?} (alone: {} bytes, number {:?})", k, suffix.len(), c, m.frame_len(), m.message_number(), l + 6, expect_number),
+                ))
+            }
+            None => return Err(("c13:scanner-frame-depends-on-position".into(), format!("the frame behind {} dead byte(s) and before {} suffix byte(s) is not delivered (consumed {})", k, suffix.len(), c))),
+        }
+    }
     // the same bytes at another memory offset (slice start not aligned like the Vec's allocation) and looked at twice
     {
         let k = (suffix.len() + l) % 7 + 1;
@@ -126,7 +143,7 @@ pub fn run(ctx: &Ctx, replay: Option<&J>) -> CheckResult {
     let rule = "valid frames of every payload length L=0..=1023 (random payloads, random reserved bits) plus every golden frame (typed decode) and structured / hostile frames of every supported number (incl. 1029 frames whose byte counter exceeds the payload) x \
         suffixes {1,2,3 bytes, many random bytes, another valid frame, a copy of the frame itself, a damaged copy, >1029 random bytes, 0..4200 bytes without any 0xD3, 0xD3 runs, 0x00/0xFF runs, and for every length suffixes that bring the total to 65535, 65536, 65537, 65536+L+5, 65536+L+6, 131072, 131075 and 196608+ bytes}; oracle: (frame_len, data_len, payload, \
         frame bytes, crc, message_number, Debug of decoded message) identical with and without suffix, message_number == first 12 payload bits \
-        iff L>=2 else None (then decode is Empty); next_msg_frame delivers the same frame from offset 0 with and without the suffix, MsgFrameIter yields it first and - when the suffix holds no further frame - as last(), nth(0) and the only item (one payload in three carries the image of a complete frame); the same bytes observed from a slice at another memory offset, and observed twice, give the same attributes. non-trivial = non-empty suffix; distinct = hash(frame, suffix)"
+        iff L>=2 else None (then decode is Empty); next_msg_frame delivers the same frame from offset 0 with and without the suffix and from behind 1..4 dead bytes, MsgFrameIter yields it first and - when the suffix holds no further frame - as last(), nth(0) and the only item (one payload in three carries the image of a complete frame); the same bytes observed from a slice at another memory offset, and observed twice, give the same attributes. non-trivial = non-empty suffix; distinct = hash(frame, suffix)"
         .to_string();
     let assumptions = vec!["frames are built by the harness' own framing code with its own CRC".to_string()];
     if let Some(case) = replay {
